@@ -198,8 +198,13 @@ func sysOfSpan(s []span) System {
 
 // Union replaces the receiver with the set union of the receiver and the argument.
 func (s *Set) Union(t Set) error {
+	// Work on a fresh slice: the receiver is often a copy of a Constraint's
+	// set (Constraint.Set returns it by value), and appending to and sorting
+	// its spans in place would rewrite the constraint's own storage.
+	spans := make([]span, 0, len(s.span)+len(t.span))
+	spans = append(append(spans, s.span...), t.span...)
 	var err error
-	s.span, err = canon(append(s.span, t.span...))
+	s.span, err = canon(spans)
 	return err
 }
 
